@@ -15,7 +15,7 @@
 #define MAXA 8
 enum { R_WAITER = 0, R_SIGNALLER };
 enum { OP_SIGNAL_IN = 0, OP_BCAST_IN, OP_SIGNAL_OUT, OP_BCAST_OUT, OP_N };
-enum { DL_NONE = 0, DL_PAST, DL_NEAR, DL_FAR };
+enum { DL_NONE = 0, DL_PAST, DL_NEAR, DL_FAR, DL_NEVER /* a time_t value meaning "never": LONG_MAX and friends */ };
 #define FAR_NS (10000000ULL * 1000000000ULL) /* 1e7 s: never reached, even by the accelerated clock of a hung run */
 
 typedef struct wstate {
@@ -226,6 +226,14 @@ static void do_wait(wl_actor *a, int dl_kind, int arg)
         w->deadline = dl;
         ts.tv_sec = (time_t)(dl / 1000000000ULL);
         ts.tv_nsec = (long)(dl % 1000000000ULL);
+        if (dl_kind == DL_NEVER) {
+            static const long never[] = { 0x7fffffffffffffffL, 9223372037L, 10000000000L, 0x7fffffffL * 16, 253402300800L /* year 10000 */, 9223372036L };
+            ts.tv_sec = (time_t)never[arg % 6];
+            ts.tv_nsec = (long)(arg % 1000) * 1000000L + 999;
+            /* the model's copy of the deadline, in ns, where that is representable (the virtual
+             * clock may jump there when everybody else is idle); otherwise "never" */
+            w->deadline = (uint64_t)ts.tv_sec < 18446744073ULL ? (uint64_t)ts.tv_sec * 1000000000ULL + (uint64_t)ts.tv_nsec : ~0ULL;
+        }
         /* the deadline handed to the library has nanosecond resolution: keep the model's copy identical */
         S.holder = -1;
         r = ABT_cond_timedwait(S.cv, S.m, &ts);
@@ -386,7 +394,7 @@ static void run_cond(int timed_mode)
     int maxops = sim_limit("ops", 4);
     S.nA = n;
     static const char *son[] = { "sig", "bc", "sig-out", "bc-out" };
-    static const char *dln[] = { "wait", "past", "near", "far" };
+    static const char *dln[] = { "wait", "past", "near", "far", "never" };
     sim_note("%s actors=%d: ", timed_mode ? "C19 cond-timed" : "C05 cond", n);
     int have_waiter = 0;
     for (int i = 0; i < n; i++) {
@@ -396,6 +404,10 @@ static void run_cond(int timed_mode)
         a->pool = (int)plan_n((uint32_t)rt->npools);
         a->body = body;
         int role = (i == 0) ? R_WAITER : (i == 1) ? R_SIGNALLER : (int)plan_n(2);
+        /* ABT_cond_timedwait may be called by a tasklet (it blocks its stream meanwhile, so its
+         * deadlines are always reached: past or near) */
+        if (timed_mode && role == R_WAITER && i >= 2 && !S.recursive && plan_n(5) == 0)
+            a->kind = AK_TASKLET;
         a->ctx = (void *)(long)role;
         a->nops = plan_range(1, maxops);
         sim_note("[%s@%d %s:", wl_actor_kind_names[a->kind], a->pool, role == R_WAITER ? "W" : "S");
@@ -404,7 +416,9 @@ static void run_cond(int timed_mode)
                 int dl = DL_NONE;
                 if (timed_mode) {
                     int r = (int)plan_n(10);
-                    dl = r < 3 ? DL_NONE : r < 4 ? DL_PAST : r < 8 ? DL_NEAR : DL_FAR;
+                    dl = r < 3 ? DL_NONE : r < 4 ? DL_PAST : r < 8 ? DL_NEAR : r < 9 ? DL_FAR : DL_NEVER;
+                    if (a->kind == AK_TASKLET)
+                        dl = r < 3 ? DL_PAST : DL_NEAR;
                 }
                 a->ops[j] = dl;
                 S.nwaits_total++;
@@ -474,6 +488,9 @@ static void run_cond(int timed_mode)
     sim_count(timed_mode ? "c19.timeouts" : "c05.timeouts", (uint64_t)S.timeouts);
     sim_count(timed_mode ? "c19.signal_with_certain_waiter" : "c05.signal_with_certain_waiter", (uint64_t)S.sig_with_waiter);
     sim_count(timed_mode ? "c19.broadcast_with_certain_waiters" : "c05.broadcast_with_certain_waiters", (uint64_t)S.bc_with_waiters);
+    for (int i = 0; i < n; i++)
+        if (S.A[i].kind == AK_TASKLET)
+            sim_count("cond.tasklet_timed_waits", (uint64_t)S.A[i].nops);
     sim_count("cond.waits_bound_to_list_elements", (uint64_t)S.wb_bound);
     sim_count("cond.in_mutex_signals_checked_for_atomicity", (uint64_t)S.wb_atomicity_checks);
     if (S.tasklet_refusals)
